@@ -135,6 +135,9 @@ func (d *Decoder) decodeOBUs(pkt *rtp.Packet) ([][]byte, error) {
 		obus[0] = joinFragments(d.fragments, d.fragmentsSize)
 		d.resetFragments()
 	} else {
+		// this packet doesn't continue a previous fragment:
+		// any pending fragment is orphaned and must be discarded.
+		d.resetFragments()
 		d.firstPacketReceived = true
 	}
 
